@@ -124,6 +124,12 @@ var consPool = []consLeaf{
 	{path: "/cons/mst/b", good: []string{"x", "y"}, support: func(string) map[string]string { return map[string]string{"/cons/mst/a": "on"} }},
 	{path: "/cons/mst/e", good: []string{"true", "false"}},
 	{path: "/cons/mst/f", good: []string{"y"}, support: func(string) map[string]string { return map[string]string{"/cons/mst/e": "true"} }},
+	// must statements over leaves with a default: valid as long as nobody sets the operand to something else
+	{path: "/cons/mst/g", good: []string{"gd", "other"}},
+	{path: "/cons/mst/h", good: []string{"hv"}},
+	{path: "/if[name=e1]/enabled", good: []string{"true", "false"}},
+	{path: "/if[name=e1]/unit[id=1]/chk", good: []string{"c"}},
+	{path: "/if[name=e2]/unit[id=2]/chk", good: []string{"c"}},
 }
 
 func llElemsOf(v string) []string {
